@@ -23,3 +23,63 @@ package mem
 //@ func (BufferSlice).Ref
 //@   trusted
 //@   modifies
+
+// ---- C53: reference counts of pooled buffers -----------------------------------------------------
+//
+// A root buffer owns pooled memory (origData, pool); a view (rootBuf != itself)
+// holds one reference on its root. refs counts the handles on the object. The
+// memory goes back to the pool exactly when the root's count reaches zero, and a
+// view's death gives back exactly its one reference on the root. Panics on misuse
+// of freed buffers are part of the API (`opt maypanic`).
+
+// a buffer object from the object pool is not reachable from any live buffer
+//@ func newBuffer
+//@   trusted
+//@   ensures result != nil && fresh(result)
+
+//@ func (*buffer).Ref
+//@   prop C53
+//@   opt maypanic
+//@   modifies b.refs
+//@   ensures b.refs.Load() == old(b.refs.Load()) + 1 && old(b.refs.Load()) >= 1
+
+// Free: while other handles remain nothing is released; the last handle of a
+// root returns origData to its pool exactly once (and forgets the pool), the last
+// handle of a view releases the view's reference on the root.
+//@ func (*buffer).Free
+//@   prop C53
+//@   opt maypanic
+//@   assert at return 1 b.refs.Load() == old(b.refs.Load()) - 1 && b.refs.Load() > 0 && b.rootBuf == old(b.rootBuf) && sameslice(b.data, old(b.data)) && ncalls("Put") == 0 && ncalls("Free") == 0
+//@   assert at call Put#1 old(b.refs.Load()) == 1 && b.rootBuf == b && arg0 == b.origData && b.pool != nil
+//@   assert at call Free#1 old(b.refs.Load()) == 1 && arg0 == b.rootBuf && b.rootBuf != b && ncalls("Put") == 0
+//@   assert at call Put#2 arg1.(*buffer) == b && b.rootBuf == nil
+
+// Slice: an empty range needs no reference; the whole range is another handle on
+// the receiver; a proper sub-range is a new view that takes one reference on the
+// ROOT (not on the receiver, which may itself be a view) and points at the root.
+//@ func (*buffer).Slice
+//@   prop C53
+//@   opt maypanic
+//@   requires b != nil
+//@   assert at call Ref#1 arg0 == b && len(data) == len(b.data) && len(data) != 0
+//@   assert at call Ref#2 arg0 == b.rootBuf && len(data) != len(b.data) && len(data) != 0
+//@   assert at return 3 s.rootBuf == b.rootBuf && s.refs.Load() == 1 && sameslice(s.data, data) && ncalls("Ref") == 1 && s != b
+
+// split: the right part is a new view holding one new reference on the root; the
+// receiver keeps the left part; together they cover the old data.
+//@ func (*buffer).split
+//@   prop C53
+//@   opt maypanic
+//@   requires b != nil && 0 <= n && n <= len(b.data)
+//@   assert at return 1 result0 == b && result1 == split && split != b && split.rootBuf == b.rootBuf && split.refs.Load() == 1
+//@   assert at return 1 len(b.data) == n && len(split.data) == old(len(b.data)) - n
+//@   assert at return 1 implies(b.rootBuf != split, b.rootBuf.refs.Load() == old(b.rootBuf.refs.Load()) + 1)
+
+// read: a fully consumed buffer is freed (exactly once) and nil is returned for it.
+//@ func (*buffer).read
+//@   prop C53
+//@   opt maypanic
+//@   requires b != nil
+//@   assert at call Free#1 arg0 == b && n == len(b.data)
+//@   assert at return 1 result0 == n && ncalls("Free") == 1
+//@   assert at return 2 result0 == n && ncalls("Free") == 0 && n < old(len(b.data)) && len(b.data) == old(len(b.data)) - n
